@@ -12,14 +12,18 @@ import (
 
 func scenarios() []*sess.Scenario {
 	all := rpcsrv.Options{Reorder: true, Container: true, Gzip: true, IDAtGeneration: true}
+	dup := all // the server may also send a result twice
+	dup.Duplicate = true
 	return []*sess.Scenario{
-		{Name: "S1-2callers-obj", Salt: 77, Opt: all, Callers: [][]sess.Call{{{Tag: 1, Kind: rpcsrv.KObj}}, {{Tag: 2, Kind: rpcsrv.KObj}}}},
+		{Name: "S1-2callers-obj", Salt: 77, Opt: dup, Callers: [][]sess.Call{{{Tag: 1, Kind: rpcsrv.KObj}}, {{Tag: 2, Kind: rpcsrv.KObj}}}},
 		{Name: "S2-3callers-obj-bool-err", Salt: 77, Opt: all, Callers: [][]sess.Call{{{Tag: 1, Kind: rpcsrv.KObj}}, {{Tag: 2, Kind: rpcsrv.KBool}}, {{Tag: 3, Kind: rpcsrv.KErr}}}},
 		{Name: "S3-2callers-2ops", Salt: 77, Opt: all, Callers: [][]sess.Call{{{Tag: 1, Kind: rpcsrv.KObj}, {Tag: 3, Kind: rpcsrv.KBool}}, {{Tag: 2, Kind: rpcsrv.KObj}, {Tag: 4, Kind: rpcsrv.KObj}}}},
-		{Name: "S4-vector-hints", Salt: 77, Opt: all, Callers: [][]sess.Call{{{Tag: 1, Kind: rpcsrv.KVecInt}}, {{Tag: 2, Kind: rpcsrv.KVecObj}}}},
+		{Name: "S4-vector-hints", Salt: 77, Opt: dup, Callers: [][]sess.Call{{{Tag: 1, Kind: rpcsrv.KVecInt}}, {{Tag: 2, Kind: rpcsrv.KVecObj}}}},
 		// a request that the server rejects for a stale salt is sent again under a new msg_id: its caller still
 		// gets its own, typed, result
 		{Name: "S6-vector-results-re-sent-after-salt-rejection", Salt: 77, Opt: all, RotateBefore: map[int]int64{1: 88}, Callers: [][]sess.Call{{{Tag: 1, Kind: rpcsrv.KVecInt}}, {{Tag: 2, Kind: rpcsrv.KVecObj}}}},
+		// a big answer (48 KiB of Vector<int>), plain or gzip-packed: it spans several reads of the unpacker
+		{Name: "S7-big-vector-result-plain-or-gzip", Salt: 77, Opt: all, Callers: [][]sess.Call{{{Tag: 1, Kind: rpcsrv.KVecIntBig}}, {{Tag: 2, Kind: rpcsrv.KObj}}}},
 		{Name: "S5-sequential-all-kinds", Salt: 77, Opt: all, Callers: [][]sess.Call{{{Tag: 1, Kind: rpcsrv.KObj}, {Tag: 2, Kind: rpcsrv.KBool}, {Tag: 3, Kind: rpcsrv.KVecInt}, {Tag: 4, Kind: rpcsrv.KVecObj}, {Tag: 5, Kind: rpcsrv.KErr}}}},
 	}
 }
